@@ -18,10 +18,16 @@
 //	            (tdef ID xTEXT xDISP init)  an object type definition that no loader knows; init = its init hash as a value
 //	                                        (what the model serializes: an instance of Pcore::ObjectType)
 //	            (tdefx ID xTEXT xDISP)      the same when the init hash cannot be written in this syntax (implementation only)
+//	            (rt ID xTEXT)               *types.RuntimeValue wrapping a Go struct that prints as &{TEXT} (implementation only)
 //	            (= ID)
+//	          the TYPE of an `o` node may also be the text of an Object definition that no loader knows (implementation only);
+//	          the TEXT of a tdefx node may be `alias NAME = TYPE`: an alias definition that no loader knows
 //	          leaf kind td = a named type the loader knows (alias Verif::Ints, object types of the catalogue)
 //	    Out:  <event tree> | <deserialized value, ids renumbered by first occurrence>     (or `| err`)
 //	            events: (u) (b t) (i N) (f BITS) (s xHEX) (x xHEX) (r N) (a e*) (h e*)
+//
+// implementation-only ops: @codec KIND xSRC (a leaf codec on its own, held to the canonical source text), @builtin (builtin.go),
+// @unbuildable xVALUE (written by the generator in place of a value of its catalogue that pcore refuses to build: always a FAIL).
 //
 // The direct predicate (evaluated on the implementation only) is described at `judge`.
 package c10
@@ -57,15 +63,15 @@ func init() {
 // ---- values ---------------------------------------------------------------------------------------------
 
 type node struct {
-	kind string // u df b i f s x l sn a h =
-	id   int64
-	b    bool
-	i    int64
-	f    uint64
-	s    string // s: text; x: bytes; l: enc
-	disp string // l
-	lk   string // l: leaf kind
-	kids []*node // sn: 1; a: elements; h: k v k v …; o: attribute values
+	kind  string // u df b i f s x l sn a h =
+	id    int64
+	b     bool
+	i     int64
+	f     uint64
+	s     string   // s: text; x: bytes; l: enc
+	disp  string   // l
+	lk    string   // l: leaf kind
+	kids  []*node  // sn: 1; a: elements; h: k v k v …; o: attribute values
 	names []string // o: attribute names
 	init  *node    // tdef: the type's init hash as a value tree (what the model serializes), nil = not expressible
 }
@@ -149,6 +155,11 @@ func parse(e sx.Sexp, defined map[int64]*node, open map[int64]bool) *node {
 	case "x":
 		need(2)
 		n := &node{kind: "x", id: id(), s: str(a[1])}
+		defined[n.id] = n
+		return n
+	case "rt":
+		need(2)
+		n := &node{kind: "rt", id: id(), s: str(a[1])}
 		defined[n.id] = n
 		return n
 	case "l":
@@ -279,7 +290,9 @@ func (b *builder) build(n *node) px.Value {
 		}
 		v = types.WrapHash(es)
 	case "o":
-		t, ok := b.c.ParseType(n.s).(px.ObjectType)
+		// the type: a name of the catalogue, or the text of a definition no loader knows (interned by text, so that the
+		// instances of one definition and a `tdef` node with the same text hold ONE type object)
+		t, ok := b.typeOf(n.s).(px.ObjectType)
 		if !ok {
 			bad("not an object type: %s", n.s)
 		}
@@ -290,8 +303,18 @@ func (b *builder) build(n *node) px.Value {
 		// always through the named-argument constructor: a single positional argument that happens to be a hash matching
 		// the init struct would be taken for the init hash (constructor ambiguity, not this property's business)
 		es := make([]*types.HashEntry, len(n.kids))
+		at := 0
 		for i, k := range n.kids {
-			if attrs[i].Name() != n.names[i] {
+			if freshObj(n) {
+				// an instance of a definition (implementation only): any attributes, in the order of the type
+				for at < len(attrs) && attrs[at].Name() != n.names[i] {
+					at++
+				}
+				if at == len(attrs) {
+					bad("attribute %s out of order", n.names[i])
+				}
+				at++
+			} else if attrs[i].Name() != n.names[i] {
 				bad("attribute %s out of order", n.names[i])
 			}
 			es[i] = types.WrapHashEntry2(n.names[i], b.build(k))
@@ -302,7 +325,9 @@ func (b *builder) build(n *node) px.Value {
 			v = px.New(b.c, t, types.WrapHash(es))
 		}
 	case "tdef":
-		v = b.c.ParseType(n.s)
+		v = b.typeOf(n.s)
+	case "rt":
+		v = types.WrapRuntime(&rtBox{n.s})
 	default:
 		bad("cannot build %s", n.kind)
 	}
@@ -332,16 +357,42 @@ func (b *builder) leaf(kind, enc string) px.Value {
 	case "uri":
 		return types.WrapURI2(enc)
 	case "ty", "td", "tx":
-		if t, ok := b.types[enc]; ok {
-			return t
-		}
-		t := b.c.ParseType(enc)
-		b.types[enc] = t
-		return t
+		return b.typeOf(enc)
 	}
 	bad("leaf kind %s", kind)
 	return nil
 }
+
+// typeOf: one type object per text.  `alias NAME = TYPE` (the harness's own notation) is a type alias that no loader
+// knows: it travels as an instance of Pcore::TypeAlias and is registered by the deserializer
+func (b *builder) typeOf(text string) px.Value {
+	if t, ok := b.types[text]; ok {
+		return t
+	}
+	var t px.Value
+	if strings.HasPrefix(text, aliasPrefix) {
+		parts := strings.SplitN(text[len(aliasPrefix):], " = ", 2)
+		if len(parts) != 2 {
+			bad("alias definition %s", text)
+		}
+		t = types.NewTypeAliasType(parts[0], nil, b.typeOf(parts[1]).(px.Type))
+	} else {
+		t = b.c.ParseType(text)
+	}
+	b.types[text] = t
+	return t
+}
+
+const aliasPrefix = "alias "
+
+// rtBox: what a RuntimeValue of the harness wraps; the serializer turns a RuntimeValue into the string fmt prints for
+// the wrapped Go value (`%v`), with a warning: rtText is the harness's own statement of that text
+type rtBox struct{ S string }
+
+func rtText(s string) string { return "&{" + s + "}" }
+
+// freshObj: an `o` node whose type is written as a definition (no loader knows it) rather than a catalogue name
+func freshObj(n *node) bool { return n.kind == "o" && strings.HasPrefix(n.s, "Object[") }
 
 // fmtSpan / parseSpan: the harness's own reading of the default Timespan format %D-%H:%M:%S.%-N (independent of pcore's)
 func fmtSpan(d time.Duration) string {
@@ -574,15 +625,16 @@ func hasKeyEv(e *ev, key string) bool {
 
 type facts struct {
 	kinds      map[string]bool
-	isData     bool // undef, bool, int, float, string, arrays and string-keyed hashes of those
-	isDataBin  bool // … allowing Binary too (it is handed over as it is to a consumer that can do binary)
-	reserved   bool // a hash whose keys are all strings and that has the key __ptype: re-interpreted by the deserializer
+	isData     bool       // undef, bool, int, float, string, arrays and string-keyed hashes of those
+	isDataBin  bool       // … allowing Binary too (it is handed over as it is to a consumer that can do binary)
+	reserved   bool       // a hash whose keys are all strings and that has the key __ptype: re-interpreted by the deserializer
 	ptHashes   [][]string // key kinds of every hash that has the key __ptype
-	ptypeStr   bool // the string __ptype occurs as a hash key somewhere
-	shared     bool // some identified object or de-dupable string occurs twice
+	ptypeStr   bool       // the string __ptype occurs as a hash key somewhere
+	shared     bool       // some identified object or de-dupable string occurs twice
 	nonStrKey  bool
 	containers int
 	implOnly   bool // holds something the model does not cover
+	hasDefs    bool // holds a type definition no loader knows, or an instance of one
 }
 
 func classify(n *node, f *facts, seen map[*node]bool, strs map[string]int) {
@@ -596,14 +648,17 @@ func classify(n *node, f *facts, seen map[*node]bool, strs map[string]int) {
 			f.shared = true
 		}
 	}
-	if (n.kind == "tdef" && n.init == nil) || (n.kind == "l" && n.lk == "tx") {
+	if (n.kind == "tdef" && n.init == nil) || (n.kind == "l" && n.lk == "tx") || n.kind == "rt" || freshObj(n) {
 		f.implOnly = true
 	}
-	if n.kind == "o" || n.kind == "tdef" {
+	if n.kind == "tdef" || freshObj(n) {
+		f.hasDefs = true
+	}
+	if n.kind == "o" || n.kind == "tdef" || n.kind == "rt" {
 		f.isData = false
 		f.isDataBin = false
 	}
-	if n.id >= 0 && (n.kind == "x" || n.kind == "l" || n.kind == "sn" || n.kind == "a" || n.kind == "h" || n.kind == "o" || n.kind == "tdef") {
+	if n.id >= 0 && (n.kind == "rt" || n.kind == "x" || n.kind == "l" || n.kind == "sn" || n.kind == "a" || n.kind == "h" || n.kind == "o" || n.kind == "tdef") {
 		if seen[n] {
 			f.shared = true
 			return
@@ -774,6 +829,11 @@ func encOf(v px.Value) string {
 // Sensitive values by what they wrap (the property's reading of equality)
 func normalize(v px.Value) px.Value {
 	switch t := v.(type) {
+	case *types.RuntimeValue:
+		// by specification a RuntimeValue is emitted as the text of the wrapped Go value (with a warning)
+		if box, ok := t.Interface().(*rtBox); ok {
+			return types.WrapString(rtText(box.S))
+		}
 	case types.Timespan:
 		// Timespan.Equals compares whole seconds; the round trip is held to the exact duration
 		return types.WrapValues([]px.Value{types.WrapString("\x00timespan"), types.WrapInteger(int64(t.Duration()))})
@@ -806,7 +866,7 @@ func normalize(v px.Value) px.Value {
 
 type nullLogger struct{}
 
-func (nullLogger) Log(level px.LogLevel, args ...px.Value)                     {}
+func (nullLogger) Log(level px.LogLevel, args ...px.Value)                    {}
 func (nullLogger) Logf(level px.LogLevel, format string, args ...interface{}) {}
 func (nullLogger) LogIssue(i issue.Reported)                                  {}
 
@@ -896,6 +956,10 @@ func exec(c px.Context, op string, args []sx.Sexp) (res core.Result) {
 			panic(e)
 		}
 	}()
+	if op == "unbuildable" && len(args) == 1 {
+		// emitted by the generator in place of a value of its catalogue that pcore refused to build
+		return core.Fail("unbuildable", "gen-unbuildable", "pcore cannot build "+args[0].MustStr())
+	}
 	if op == "codec" && len(args) == 2 {
 		ensureCatalogue(c)
 		q := pcore.WithParent(context.Background(), px.NewParentedLoader(c.Loader()), nullLogger{}, c.ImplementationRegistry())
@@ -1202,6 +1266,23 @@ func ser(c px.Context, o opts, cp caps, vs sx.Sexp) core.Result {
 		// name the kind of the first node that differs, so that unrelated defects get different classes
 		return fail(out, "roundtrip-"+diffKind(v, back), "deserialized value differs from the original")
 	}
+	// a stream that carries type definitions, read once more: the loader knows the definitions by now (the first reading
+	// registered them), the stream still holds them in full; the value that comes back is the same
+	if f.hasDefs && !f.reserved {
+		var again px.Value
+		if err := safely(func() {
+			ds := serialization.NewDeserializer(c, px.EmptyMap)
+			feed(stream, ds)
+			again = ds.Value()
+		}); err != nil {
+			return fail(out, "reread-panic", oneLine(err))
+		}
+		if err := safely(func() {
+			eq = px.Equals(normalize(v), normalize(again), nil) && px.Equals(normalize(again), normalize(back), nil)
+		}); err != nil || !eq {
+			return fail(out, "reread-"+diffKind(v, again), "the stream read a second time (its type definitions are known by then) gives a different value")
+		}
+	}
 	return done(out, "ok")
 }
 
@@ -1275,6 +1356,19 @@ func diffKind(a, b px.Value) string {
 var leafTypeName = map[string]string{"rx": "Regexp", "sv": "SemVer", "svr": "SemVerRange", "ts": "Timespan", "tm": "Timestamp",
 	"uri": "URI", "ty": "Type", "td": "Type", "tx": "Type"}
 
+// the sources of the codec stream that are not written in canonical form, with their canonical form
+var canonicalOf = map[string]string{
+	"Float[1.5, 2.5]":                     "Float[1.50000, 2.50000]",
+	"Timespan[0, 90]":                     "Timespan['0-00:00:00.0', '0-00:01:30.0']",
+	"http://example.com/é":                "http://example.com/%C3%A9",
+	"SemVer['>=1.0.0 <2.0.0', '>=3.0.0']": "SemVer['>=1.0.0 <2.0.0 || >=3.0.0']",
+	"URI['http://example.com/a']":         "URI[{'scheme' => 'http', 'host' => 'example.com', 'path' => '/a'}]",
+	"Integer[-9223372036854775808, -1]":   "Integer[default, -1]",
+}
+
+// sources of the codec stream that pcore does not read (kept: they must stay outside the quantifier, not change sides silently)
+var knownUnbuildable = map[string]bool{"Runtime['go', 'x']": true, "Like[String]": true}
+
 // codec (implementation only): the real leaf codec on its own — what the deserializer does with {__ptype: T, __pvalue: s}
 // is ParseTypeValue(T) and px.New(type, s); the result must equal the original and print the same serialization string
 func codec(c px.Context, kind, src string) core.Result {
@@ -1284,7 +1378,13 @@ func codec(c px.Context, kind, src string) core.Result {
 	}
 	var v px.Value
 	if err := safely(func() { v = (&builder{c: c, memo: map[*node]px.Value{}, types: map[string]px.Value{}}).leaf(kind, src) }); err != nil {
-		return core.Result{Out: "unbuildable", Pred: "n/a", Tags: tags}
+		if knownUnbuildable[src] {
+			return core.Result{Out: "unbuildable", Pred: "n/a", Tags: tags}
+		}
+		// a canonical text of the stream that pcore no longer reads: what was written with it cannot be read back
+		r := core.Fail("unbuildable", "codec-"+kind, fmt.Sprintf("%q cannot be read: %s", src, oneLine(err)))
+		r.Tags = tags
+		return r
 	}
 	ss, ok := v.(px.SerializeAsString)
 	if !ok || !ss.CanSerializeAsString() {
@@ -1297,6 +1397,16 @@ func codec(c px.Context, kind, src string) core.Result {
 		back = px.New(c, c.ParseType(leafTypeName[kind]), types.WrapString(enc))
 	}); err != nil {
 		r := core.Fail("codec-panic", "codec-"+kind, fmt.Sprintf("%q -> %q: %s", src, enc, oneLine(err)))
+		r.Tags = tags
+		return r
+	}
+	// the sources are canonical texts (the specification the codecs are held to): the value built from one prints it
+	want := src
+	if c, ok := canonicalOf[src]; ok {
+		want = c
+	}
+	if enc != want {
+		r := core.Fail("codec-differs", "codec-"+kind, fmt.Sprintf("the value built from %q serializes as %q (expected %q)", src, enc, want))
 		r.Tags = tags
 		return r
 	}
